@@ -29,9 +29,7 @@ if diff /tmp/seed-base-$$.txt /tmp/seed-with-$$.txt; then echo "existing tests u
 git checkout -q -- .
 rm -f /tmp/seed-base-$$.txt /tmp/seed-with-$$.txt
 mkdir -p /verif/seeded/$NAME && cp $S/patch.diff $S/demo_test.go $S/meta.json /verif/seeded/$NAME/
-echo "-- /verif check $ID against the change applied to /repo"
-cd /repo && git apply /verif/seeded/$NAME/patch.diff || { echo "patch does not apply to /repo"; exit 3; }
-cd /verif && ./check $ID 2>&1 | grep -E "VIOLATION|sig=|KNOWN|INFRA|quick seed" | head -8
-rc=${PIPESTATUS[0]}
-git -C /repo checkout -q -- . && git -C /repo status --short
-echo "check exit: $rc"
+echo "-- /verif check $ID against a scratch copy of /repo with the change applied"
+# (equivalent to: git -C /repo apply <patch>; ./check $ID; git -C /repo checkout -- .  — a scratch copy is used so
+# that long background runs against /repo are not disturbed)
+cd /verif && tools/mut.sh /verif/seeded/$NAME/patch.diff $ID 2>&1 | grep -E "VIOLATION|sig=|KNOWN|INFRA|quick seed|patch failed|not build" | head -8
